@@ -5,6 +5,7 @@ from sx import spec as SP, obs as O, term as T
 from . import common as C
 
 ID = 'C09'
+AGEABLE = True        # a quarter of the configurations build their operands as objects with a past (props/common.py)
 ENCODED = ['functions.truediv', 'functions.floordiv', 'functions.mod', 'functions._function_over_two_vars', 'functions._get_sizing',
            'Fxp.__truediv__', 'Fxp.__floordiv__', 'Fxp.__mod__', 'Fxp.set_val', 'Fxp.__init__']
 ASSUMPTIONS = [
